@@ -369,6 +369,7 @@ func newTarget(c Case, dir string, mem *dx.MemStore) *target {
 	case "http-plain":
 		ps := &plainObjects{objs: map[string][]byte{}, unc: c.Unc}
 		fs := &faultServer{counts: map[string]int{}, failAt: map[string]map[int]bool{}, perKey: map[string]int{}}
+		fs.refuse = c.Refuse
 		fs.start(ps)
 		fs.srv.Config.SetKeepAlivesEnabled(false)
 		u, _ := url.Parse(fs.url())
@@ -390,13 +391,18 @@ func newTarget(c Case, dir string, mem *dx.MemStore) *target {
 				for _, d := range fs.delivered {
 					del = append(del, "http-plain:"+d)
 				}
+				refused := fs.refused
 				fs.mu.Unlock()
+				if refused > 0 { // a 4xx refusal of a PUT is final whatever the retry budget
+					return append(del, fmt.Sprintf("http-plain:refused-%d", fs.refuse)), true, false
+				}
 				f, ok := retryVerdict(retry, fs.maxPerKey())
 				return del, f, ok
 			},
 			close: func() { st.Close(); fs.srv.Close() }}
 	case "http":
 		fs := newFaultServer(filepath.Join(dir, "httpstore"), true)
+		fs.refuse = c.Refuse
 		fs.srv.Config.SetKeepAlivesEnabled(false) // connection goroutines end with their request
 		u, _ := url.Parse(fs.url())
 		opt.Uncompressed = false
@@ -419,7 +425,11 @@ func newTarget(c Case, dir string, mem *dx.MemStore) *target {
 				for _, d := range fs.delivered {
 					del = append(del, "http:"+d)
 				}
+				refused := fs.refused
 				fs.mu.Unlock()
+				if refused > 0 {
+					return append(del, fmt.Sprintf("http:refused-%d", fs.refuse)), true, false
+				}
 				f, ok := retryVerdict(retry, fs.maxPerKey())
 				return del, f, ok
 			},
